@@ -19,6 +19,16 @@ STUB = [
 ]
 BUDGET = {"quick": 60.0, "thorough": 780.0}
 
+def _merged(a: dict[str, object], b: dict[str, object]) -> dict[str, object]:
+    pa, pb = a["plans"], b["plans"]
+    return {
+        "level": a["level"],
+        "plans": lambda tier: list(pa(tier)) + list(pb(tier)),  # type: ignore[operator]
+        "rule": f"{a['rule']} || {b['rule']}",
+        "assumptions": list(a["assumptions"]) + list(b["assumptions"]),  # type: ignore[call-overload]
+    }
+
+
 def _collect() -> dict[str, dict[str, object]]:
     """Every world module contributes its own ``CHECKS`` entries."""
     import importlib  # noqa: PLC0415
@@ -40,8 +50,9 @@ def _collect() -> dict[str, dict[str, object]]:
             continue
         for pid, c in getattr(m, "CHECKS", {}).items():
             if pid in out:
-                raise RuntimeError(f"{pid} defined by two worlds")
-            out[pid] = c
+                out[pid] = _merged(out[pid], c)  # two worlds serve one property: their plans add up
+            else:
+                out[pid] = c
     return out
 
 
